@@ -199,3 +199,47 @@ extern "C" void c05_mt_real()
   vp_reach();
 }
 #endif
+
+
+// ---------------------------------------------------------------- level-aware short cuts
+// The short-cut predicates receive the level L at which the operands are met.  A terminal t met
+// at a level L > 0 denotes, below that level, the constant t in a fully/quasi-reduced forest,
+// but in an identity-reduced relation forest it denotes t on the diagonal and 0 off the
+// diagonal (skipped levels are identity patterns).  Soundness of "result is the first/second
+// argument" is therefore judged at a symbolic point kind (diagonal / off-diagonal), with the
+// reduction rules of the two operand forests chosen independently.
+static reduction_rule any_rule() {
+  unsigned k = vp_range(0, 2);
+  return k == 0 ? reduction_rule::FULLY_REDUCED : k == 1 ? reduction_rule::QUASI_REDUCED : reduction_rule::IDENTITY_REDUCED;
+}
+extern "C" void c05_mt_long_levels()
+{
+  forest* fa = forest_record(true, range_type::INTEGER, edge_labeling::MULTI_TERMINAL, any_rule(), edge_type::VOID, terminal_type::INTEGER);
+  forest* fb = forest_record(true, range_type::INTEGER, edge_labeling::MULTI_TERMINAL, any_rule(), edge_type::VOID, terminal_type::INTEGER);
+  node_handle a = vp_nondet_i32(), b = vp_nondet_i32();
+  vp_assume((a == 0 || a < 0) && a != (node_handle) 0x80000000 && (b == 0 || b < 0) && b != (node_handle) 0x80000000);
+  long ta, tb; fa->getValueFromHandle(a, ta); fb->getValueFromHandle(b, tb);
+  int L = (int) vp_range(0, 2);
+  bool diag = vp_nondet_bool();
+  // value of each operand at the chosen point
+  long va = (fa->isIdentityReduced() && L != 0 && !diag) ? 0 : ta;
+  long vb = (fb->isIdentityReduced() && L != 0 && !diag) ? 0 : tb;
+#ifdef VBITS
+  vp_assume(ta >= -(1L << (VBITS-1)) && ta < (1L << (VBITS-1)) && tb >= -(1L << (VBITS-1)) && tb < (1L << (VBITS-1)));
+#endif
+  long expect; bool valid = spec_long(va, vb, expect);
+  node_handle a2 = a, b2 = b;
+  if (POL<long>::simplifiesToFirstArg(L, fa, a2, fb, b)) {
+    vp_cover(1);
+    if (valid) vp_assert(expect == va, "level-aware: 'result is the first argument' holds at every point below level L");
+    else vp_assert(0, "short cut 'result is the first argument' fires where the scalar case is invalid (division by zero must raise)");
+    if (fa->isIdentityReduced() && L != 0) vp_cover(3);
+  }
+  a2 = a; b2 = b;
+  if (POL<long>::simplifiesToSecondArg(L, fa, a, fb, b2)) {
+    vp_cover(2);
+    if (valid) vp_assert(expect == vb, "level-aware: 'result is the second argument' holds at every point below level L");
+    else vp_assert(0, "short cut 'result is the second argument' fires where the scalar case is invalid (division by zero must raise)");
+  }
+  vp_reach();
+}
